@@ -42,7 +42,9 @@ def replay_one(col, bs, root, seed, bi):
     try:
         ng = len(GX)
         wav = sorted(12.0 / g for g in GX)                       # increasing wavelength: rank w <-> GX[ng-1-w]
-        aps = [10.0, 1e7] if mode == 'dist' else None
+        # tabulated radii: the three requested ones (1 arcsec at 1, 10, 100 kpc) and one below / above; spec AP = <<0, 1, 2>>
+        aps = [10.0, 1e3, 1e4, 1e5, 1e7] if mode == 'dist' else None
+        apq = [0, 0, 1, 2, 2]
         dark = cfg.get('dark', 0)                                # band (1-based) in which an extra 4th model has ZERO flux
         nmod = 4 if dark else 3
         ALL = NAMES + ['mod_0dark']
@@ -51,17 +53,19 @@ def replay_one(col, bs, root, seed, bi):
 
         def val(m, a, w):
             band = band_of(GX[ng - 1 - w])
+            ap = apq[a] if mode == 'dist' else 0
             if perm[m] == 3:
-                return 0.0 if band == dark - 1 else 10.0 ** (0.25 * (band + 1))
-            return 10.0 ** (grid[perm[m]][band] / 4.0)
+                return 0.0 if band == dark - 1 else 10.0 ** (0.25 * (band + 1 + ap))
+            return 10.0 ** ((grid[perm[m]][band] + ap) / 4.0)
         unc = lambda m, a, w: 0.01 * val(m, a, w)
         pars = [{n_: 10.0 + ALL.index(n_) for n_ in ALL}, {n_: 100.0 * (1 + ALL.index(n_)) for n_ in ALL}]
+        apu = ['au', 'pc', 'cm'][bi % 3]                      # the unit in which the package stores its aperture radii
         if fmt == 'perfile':
             stored = [rng.choice(['asc', 'desc']) for _ in range(nmod)]
             pw.build_perfile(d, names, wav, aps, val, unc, stored=stored, aperture_dependent=(mode == 'dist'), logd_step=1.0001, par_values=pars,
-                             writer=rng.choice(['lib', 'raw']))
+                             writer=(rng.choice(['lib', 'raw']) if apu == 'au' else 'lib'), ap_unit=apu)
         else:
-            pw.build_cube(d, names, wav, aps, val, unc, order=rng.choice(['asc', 'desc']), aperture_dependent=(mode == 'dist'), logd_step=1.0001, par_values=pars)
+            pw.build_cube(d, names, wav, aps, val, unc, order=rng.choice(['asc', 'desc']), aperture_dependent=(mode == 'dist'), logd_step=1.0001, par_values=pars, ap_unit=apu)
         filts = []
         for j in range(3):
             f = make_filter(FX[j], [1, 2, 1], desc=bool((j + bi) % 2), name='b%d' % j)
